@@ -317,6 +317,7 @@ type store struct {
 	hits           map[string]string
 	slow           bool // stress: widen the window inside callbacks
 	extraConsumers bool // a second Start() added consumers to this group
+	sized          bool // values implement cache.Value with Size() = v%3+1
 }
 
 // model value 0 is the Go value nil: a callback may legitimately hand back (nil, nil) for an existing row
@@ -325,6 +326,30 @@ func iface(v int) interface{} {
 		return nil
 	}
 	return v
+}
+
+// sizedVal: a value that reports its own size to the LRU cache (facade kind `lrus`)
+type sizedVal int
+
+func (v sizedVal) Size() int { return int(v)%3 + 1 }
+
+func (s *store) wrap(v int) interface{} {
+	if v != 0 && s.sized {
+		return sizedVal(v)
+	}
+	return iface(v)
+}
+
+func unwrapVal(e interface{}) (int, bool) {
+	switch x := e.(type) {
+	case nil:
+		return 0, true
+	case int:
+		return x, true
+	case sizedVal:
+		return int(x), true
+	}
+	return 0, false
 }
 
 func newStore() *store {
@@ -381,7 +406,7 @@ func (s *store) load(ctx context.Context, d interface{}) (interface{}, error) {
 	s.mu.Lock()
 	defer s.mu.Unlock()
 	if v, ok := s.m[k]; ok {
-		return iface(v), nil
+		return s.wrap(v), nil
 	}
 	return nil, errNotFound
 }
@@ -399,7 +424,7 @@ func (s *store) add(ctx context.Context, d interface{}) (interface{}, error) {
 		return nil, errExists
 	}
 	s.m[p.k] = p.v
-	return iface(p.v), nil
+	return s.wrap(p.v), nil
 }
 
 // staleCheck: an existing item handed to a callback must be what the store holds (coherence at the moment of use)
@@ -408,10 +433,7 @@ func (s *store) staleCheck(cb string, k int, e interface{}, nilIsZero bool) {
 		return
 	}
 	cur, ok := s.m[k]
-	ev, isInt := e.(int)
-	if e == nil {
-		ev, isInt = 0, true
-	}
+	ev, isInt := unwrapVal(e)
 	if (!isInt || !ok || ev != cur) && !s.bad[k] {
 		s.bad[k] = true
 		s.hit("C15:"+cb+":stale-item-handed-to-callback", fmt.Sprintf("%s for key %d received existing item %v, the store holds %v (present=%v)", cb, k, e, cur, ok))
@@ -431,9 +453,9 @@ func (s *store) upd(ctx context.Context, d interface{}, e interface{}) (interfac
 	if _, ok := s.m[p.k]; !ok {
 		return nil, errNotFound
 	}
-	ev, _ := e.(int)
+	ev, _ := unwrapVal(e)
 	s.m[p.k] = ev + p.v
-	return iface(ev + p.v), nil
+	return s.wrap(ev + p.v), nil
 }
 
 func (s *store) upsert(ctx context.Context, d interface{}, e interface{}) (interface{}, error) {
@@ -447,12 +469,14 @@ func (s *store) upsert(ctx context.Context, d interface{}, e interface{}) (inter
 	defer s.mu.Unlock()
 	s.staleCheck("upsertFn", p.k, e, false)
 	s.applied[p.k] = append(s.applied[p.k], p.v)
-	base := s.m[p.k]
-	if ev, ok := e.(int); ok {
-		base = ev
+	if e == nil {
+		// no existing row in hand (cache miss): merge in the store, hand back only what was given — the partial row
+		s.m[p.k] = s.m[p.k] + p.v
+		return s.wrap(p.v), nil
 	}
+	base, _ := unwrapVal(e)
 	s.m[p.k] = base + p.v
-	return iface(base + p.v), nil
+	return s.wrap(base + p.v), nil
 }
 
 func (s *store) del(ctx context.Context, d interface{}) error {
@@ -479,6 +503,7 @@ type group struct {
 	keys    map[int]bool
 	home    map[int]int // key -> worker whose cache was seen holding it
 	extra   int         // consumer goroutines added by Start() calls after the first
+	gates   []*gateFacade
 }
 
 // startAgain: the script called `start`: groups (also the fresh ones of stress / pile) get Start() a second time
@@ -501,8 +526,38 @@ func (gr *group) start() {
 	}
 }
 
+// gateFacade passes everything through to the real facade; when armed, the next Set is held open until released,
+// so the harness can look at the world between "the handler decided to write the cache" and the write itself
+type gateFacade struct {
+	inner            mux.CacheFacade
+	mu               sync.Mutex
+	armed            bool
+	entered, release chan struct{}
+}
+
+func (g *gateFacade) Peek(k interface{}) (interface{}, bool) { return g.inner.Peek(k) }
+func (g *gateFacade) Get(k interface{}) (interface{}, bool)  { return g.inner.Get(k) }
+func (g *gateFacade) Delete(k interface{})                   { g.inner.Delete(k) }
+func (g *gateFacade) Set(k interface{}, v interface{}) {
+	g.mu.Lock()
+	if g.armed {
+		g.armed = false
+		ent, rel := g.entered, g.release
+		g.mu.Unlock()
+		close(ent)
+		<-rel
+	} else {
+		g.mu.Unlock()
+	}
+	g.inner.Set(k, v)
+}
+
+// sizedGroups: the facade kind of the script in flight is `lrus`
+var sizedGroups bool
+
 func newGroupDeep(lru bool, capN, workers, deep int) *group {
 	gr := &group{st: newStore(), keys: map[int]bool{}, home: map[int]int{}}
+	gr.st.sized = sizedGroups && lru
 	gr.g = mux.NewWorkGrp(func() mux.CacheFacade {
 		var f mux.CacheFacade
 		if lru {
@@ -510,8 +565,10 @@ func newGroupDeep(lru bool, capN, workers, deep int) *group {
 		} else {
 			f = mux.NewFacadeMap()
 		}
+		g := &gateFacade{inner: f}
 		gr.facades = append(gr.facades, f)
-		return f
+		gr.gates = append(gr.gates, g)
+		return g
 	}, mux.WithSize(workers), mux.WithDeep(deep))
 	gr.g.Start()
 	if startAgain {
@@ -541,7 +598,7 @@ func canonRes(op string, r interface{}, err error) string {
 	case err == mux.ErrQFull:
 		return "err:full"
 	case err == nil:
-		if v, ok := r.(int); ok {
+		if v, ok := unwrapVal(r); ok {
 			return "ok:" + strconv.Itoa(v)
 		}
 		return fmt.Sprintf("ok?%v", r)
@@ -721,6 +778,79 @@ func (gr *group) op(op string, k, v int, faults []byte) string {
 			st.mu.Unlock()
 		}
 	}
+	gr.checkCoherent(handlerOf[op])
+	return res + " cb=" + strings.Join(trace, ",")
+}
+
+// gap runs one operation with every facade's next Set held open. "Completed" means the caller has its result: at that
+// moment the cache must already agree with the store. If the caller returns while the Set is still pending, what the
+// cache (and DoGet's fast path) serves for the key is compared with the store.
+func (gr *group) gap(op string, k, v int) string {
+	gr.keys[k] = true
+	st := gr.st
+	st.mu.Lock()
+	st.faults, st.trace = nil, nil
+	st.mu.Unlock()
+	for _, g := range gr.gates {
+		g.mu.Lock()
+		g.armed, g.entered, g.release = true, make(chan struct{}), make(chan struct{})
+		g.mu.Unlock()
+	}
+	done := make(chan string, 1)
+	go func() { done <- gr.do(op, k, v) }()
+	if err := c14q.Quiesce(20 * time.Second); err != nil {
+		fmt.Fprintln(os.Stderr, "harness error:", err)
+		os.Exit(2)
+	}
+	var held []*gateFacade
+	for _, g := range gr.gates {
+		select {
+		case <-g.entered:
+			held = append(held, g)
+		default:
+		}
+	}
+	res, returned := "", false
+	select {
+	case res = <-done:
+		returned = true
+	default:
+	}
+	if returned && len(held) > 0 {
+		where, vals := gr.peek(k)
+		st.mu.Lock()
+		cur, present := st.m[k]
+		st.mu.Unlock()
+		for j := range where {
+			if cv, ok := vals[j].(int); !ok || !present || cv != cur {
+				got := fmt.Sprint(vals[j])
+				if r, err := gr.g.DoGet(context.Background(), st.load, mux.Int(k)); err == nil {
+					if gv, ok := unwrapVal(r); ok {
+						got = strconv.Itoa(gv)
+					}
+				}
+				st.mu.Lock()
+				st.bad[k] = true
+				st.hit("C15:"+handlerOf[op]+":result-before-cache-write", fmt.Sprintf("%s on key %d returned %s to its caller while the cache write was still pending: DoGet serves %s, the store holds %d", op, k, res, got, cur))
+				st.mu.Unlock()
+			}
+		}
+	}
+	for _, g := range gr.gates {
+		g.mu.Lock()
+		g.armed = false
+		g.mu.Unlock()
+	}
+	for _, g := range held {
+		close(g.release)
+	}
+	if !returned {
+		res = <-done
+	}
+	gr.barrier(k)
+	st.mu.Lock()
+	trace := append([]string{}, st.trace...)
+	st.mu.Unlock()
 	gr.checkCoherent(handlerOf[op])
 	return res + " cb=" + strings.Join(trace, ",")
 }
@@ -965,7 +1095,7 @@ func probe(lru bool, capN int, keyType string, hits map[string]string) {
 }
 
 func runScript(lines []string) ([]string, map[string]string) {
-	startAgain = false
+	startAgain, sizedGroups = false, false
 	var gr *group
 	var lru bool
 	var capN, workers int
@@ -995,8 +1125,9 @@ func runScript(lines []string) ([]string, map[string]string) {
 			finish()
 			c, ok1 := parseNat(w[2], 64)
 			n, ok2 := parseNat(w[3], 128)
-			if (w[1] == "map" || w[1] == "lru") && ok1 && ok2 && n >= 1 {
-				lru, capN, workers = w[1] == "lru", c, n
+			if (w[1] == "map" || w[1] == "lru" || w[1] == "lrus") && ok1 && ok2 && n >= 1 {
+				lru, capN, workers = w[1] != "map", c, n
+				sizedGroups = w[1] == "lrus"
 				gr = newGroup(lru, capN, workers)
 				out = "ok"
 			}
@@ -1012,6 +1143,12 @@ func runScript(lines []string) ([]string, map[string]string) {
 			f, ok3 := parseFaults(w[3])
 			if ok1 && ok2 && ok3 {
 				out = gr.op(w[0], k, v, f)
+			}
+		case len(w) == 4 && w[0] == "gap" && gr != nil && handlerOf[w[1]] != "" && w[1] != "get" && w[1] != "del":
+			k, ok1 := parseKey(w[2])
+			v, ok2 := parseNat(w[3], 999)
+			if ok1 && ok2 {
+				out = gr.gap(w[1], k, v)
 			}
 		case len(w) == 4 && w[0] == "pile" && gr != nil:
 			k, ok1 := parseKey(w[1])
@@ -1201,7 +1338,7 @@ func genFaults(r *rng.R) string {
 }
 
 func genScript(r *rng.R, tier string) []string {
-	fac := r.Pick("map", "lru", "lru")
+	fac := r.Pick("map", "lru", "lru", "lrus")
 	capN := r.PickInt(0, 1, 2, 2, 3, 8)
 	workers := r.PickInt(1, 2, 2, 3, 3, 4)
 	if r.Chance(1, 40) {
@@ -1235,6 +1372,9 @@ func genScript(r *rng.R, tier string) []string {
 			}
 			lines = append(lines, fmt.Sprintf("%s %d %d %s", valueOps[r.Intn(len(valueOps))], k, v, genFaults(r)))
 		case 9:
+			if r.Bool() {
+				lines = append(lines, fmt.Sprintf("gap %s %d %d", valueOps[r.Intn(len(valueOps))], k, r.Range(0, 9)))
+			}
 			lines = append(lines, fmt.Sprintf("peek %d", k), fmt.Sprintf("where %d", k))
 		case 10:
 			lines = append(lines, fmt.Sprintf("store %d", k))
@@ -1249,9 +1389,9 @@ func genScript(r *rng.R, tier string) []string {
 }
 
 func genGarbage(r *rng.R) []string {
-	toks := []string{"start", "where", "probe", "bytes", "new", "get", "add", "upd", "del", "uoa", "utl", "utr", "peek", "store", "stress", "pile", "c", "0c", "cx", "map", "lru", "0", "1", "-1", "-", "01", "2", "x",
+	toks := []string{"gap", "lrus", "start", "where", "probe", "bytes", "new", "get", "add", "upd", "del", "uoa", "utl", "utr", "peek", "store", "stress", "pile", "c", "0c", "cx", "map", "lru", "0", "1", "-1", "-", "01", "2", "x",
 		"99999999999999999999", "1000", "+1", "", "012", "-9223372036854775809"}
-	lines := []string{r.Pick("new map 0 1", "new lru 2 2", "new bogus 1 1", "new lru 65 1", "new map 0 0", "new lru 1 129")}
+	lines := []string{r.Pick("new map 0 1", "new lru 2 2", "new lrus 2 1", "new bogus 1 1", "new lru 65 1", "new map 0 0", "new lru 1 129")}
 	for i := 0; i < 8; i++ {
 		n := r.Range(0, 5)
 		var w []string
@@ -1315,6 +1455,22 @@ func fixedCases() []corr.Case {
 		add("probe", "new map 0 1", "probe "+t)
 		add("probe", "new lru 4 1", "probe "+t)
 	}
+	// values with their own Size() on a small LRU: a row that grows past the capacity must not keep its old copy
+	add("boundary-sized", "new lrus 2 1", "add 1 4 -", "peek 1", "upd 1 1 -", "peek 1", "store 1", "add 2 3 -", "upd 2 2 -", "peek 2", "store 2", "utl 2 2 -", "peek 2")
+	add("boundary-sized", "new lrus 3 2", "add 1 1 -", "add 2 3 -", "add 3 2 -", "upd 1 1 -", "peek 1", "peek 2", "peek 3", "uoa 3 3 -", "peek 3", "store 3")
+	// the cache write is held open: the caller must not have its result before the cache agrees with the store
+	for _, f := range []string{"map 0 1", "lru 4 2"} {
+		add("boundary-gap", "new "+f, "add 1 5 -", "gap upd 1 2", "peek 1", "store 1", "gap uoa 1 1", "gap utl 1 1", "gap utr 1 1", "gap add 2 3", "gap utl 3 4", "gap uoa 4 1", "peek 1", "store 1")
+	}
+	// a merging upsert on a cache miss hands back the partial row: it must not end up in the cache
+	add("boundary-partial", "new map 0 1", "utr 1 5 -", "utl 1 2 -", "peek 1", "store 1", "del 1 -", "utl 1 3 -", "peek 1", "store 1", "utr 2 4 -", "utr 2 1 -", "peek 2", "store 2", "utl 2 0 -", "peek 2")
+	// the same key through all seven operations, negative and extreme keys, several worker counts
+	for _, k := range []string{"-1", "-2", "-7", strconv.Itoa(math.MinInt64 + 1), "-9223372036854775807", strconv.Itoa(math.MaxInt64)} {
+		for _, w := range []string{"2", "3", "4", "7"} {
+			add("boundary-routing", "new map 0 "+w, "add "+k+" 5 -", "where "+k, "get "+k+" -", "upd "+k+" 1 -", "uoa "+k+" 1 -", "utl "+k+" 1 -", "utr "+k+" 1 -", "peek "+k, "store "+k,
+				"del "+k+" -", "peek "+k, "store "+k, "add "+k+" 2 -", "utr "+k+" 1 -", "peek "+k, "store "+k, "del "+k+" -", "utl "+k+" 3 -", "get "+k+" -", "peek "+k)
+		}
+	}
 	add("pile", "new map 0 1", "pile 1 5 -", "add 1 1 -")
 	add("pile", "new lru 2 3", "pile -2 4 -")
 	add("stress", "new map 0 2", "stress 1 8 -", "add 1 1 -", "peek 1")
@@ -1333,7 +1489,7 @@ func spec() corr.Spec {
 			case "thorough":
 				return 40000
 			}
-			return 60000
+			return 6000 // search (S7): the fixed enumeration comes first; keep a run through S7 short
 		},
 		Shards: func(tier string) int {
 			if tier == "quick" {
